@@ -18,6 +18,9 @@ CHECKS = {
  "C03": dict(level="exploration", engine="E1+E2", technique="stateful property testing: generated single-thread interleavings of up to 4 readers with committing / rolling-back writers, every open reader re-dumped and compared with its model snapshot after every step",
    text="Generated step sequences (open reader, close any reader, writer commit/rollback with update/delete-heavy ops that free and reuse pages, reopen); each reader keeps the model clone from its begin and is re-verified in full after every step; commits are also parsed independently to know which of them reused freed pages.",
    note="File pre-sized so no commit grows it while a reader is open on the same thread (documented self-deadlock); such cases are discarded and counted.", ref="4/C03"),
+ "C04": dict(level="exploration", engine="E4", technique="schedule enumeration: real threads under a cooperative controller at instrumented yield points; depth-first enumeration of all schedules within a preemption bound plus seeded random / PCT schedules; oracle = each reader's dumps against the chain of model states",
+   text="Reader threads race a writer thread's chain of page-reusing commits; the schedule (choice of thread at every instrumented yield point inside jammdb and between API calls) is the generated input. All schedules with <= 2 (thorough 3) preemptions are enumerated by re-execution (exhaustive flag says whether every enumeration completed), then random and PCT schedules. Each reader must see exactly one committed state, at least as new as every commit that returned before it began, unchanged while it is open, without panic.",
+   note="Interleavings at the instrumented yield points of the verif-hooks build only; no weak-memory effects.", ref="4/C04"),
  "C05": dict(level="exploration", engine="E1+E2", technique="property-based testing: generated histories (bucket-deletion storms, mixed buckets, C01 grammar) with an independent file parser doing exact page accounting after every commit, cross-checked with DB::check()",
    text="After every commit of every generated history the raw file bytes are parsed by code that shares nothing with jammdb: each page below the high-water mark must be exactly one of header / reachable once (with overflow run) / free-list page / free-list entry; key order, separators, element bounds are checked; DB::check() must agree. Exploration over the generated set reported in the evidence.",
    note="The parser encodes the pinned layout (DESIGN.md 1.1); validated against healthy and corrupted files.", ref="4/C05"),
@@ -30,6 +33,9 @@ CHECKS = {
  "C08": dict(level="exploration", engine="E1", technique="enumerative property testing: all neighbour-derived seek keys and all bound pairs x bound kinds on generated buckets, oracle = sorted-suffix rule / hand-written filter of the model",
    text="For generated buckets (empty to three-level, committed and mid-transaction) every candidate key derived from the present keys is used for seek, and every pair of candidates x {included, excluded, unbounded}^2 for range (exhaustive on small buckets, sampled on large) through tuple and std range types and the to_buckets / to_kv_pairs filters, with repeated next() after exhaustion.",
    note="seek(absent) may land on predecessor or successor (both accepted).", ref="4/C08"),
+ "C09": dict(level="exploration", engine="E4", technique="schedule enumeration (as C04) of read-modify-write writer threads and readers incl. file growth; oracles = mutual-exclusion flag, unique predecessor values / final counter, no all-blocked state, reader never blocked by an idle writer, termination within a step bound",
+   text="2-3 writer threads increment a counter read inside their transaction while 1-2 readers run; the first commits grow a fresh 4-page file (exclusive map lock). All schedules with <= 1 preemption, then <= 2 (capped; thorough 3), then random / PCT schedules. Violations: two write transactions open at once, a lost update, a state where every live thread is blocked, a reader blocked while only an idle uncommitted writer exists (also when the blocking is invisible to the controller: watchdog), or an execution exceeding the step bound.",
+   note="Liveness as bounded progress under explored schedules; fairness not modelled.", ref="4/C09"),
  "C10": dict(level="exploration", engine="E1+E2", technique="property testing over seeded long stationary workloads with a metamorphic bound: high-water mark bounded by measured live + dirty pages (independent parser after every commit)",
    text="Seeded long workloads (fixed-size overwrite, variable-size overwrite/delete, bucket create/delete cycles; with reopen, rollbacks, pinned reader) are run for hundreds to thousands of transactions; after every commit the independent parser measures live pages, dirty pages and the high-water mark; the high-water mark must stay within a bound relative to measured live and dirty pages for every prefix of the run, a pinned reader must keep seeing its snapshot, and growth must stop once it closes.",
    note="Bounds calibrated on the unchanged tree (plateau ~1.1-1.6x live; a free list that never releases exceeds the bound within ~100 transactions).", ref="4/C10"),
@@ -81,6 +87,7 @@ def main():
         "engines": [
             {"name": "E1", "path": "harness/src/{model,ops,interp,shapes}.rs", "serves_properties": ["C01","C03","C05","C06","C07","C08","C10","C15","C16"], "kind_free_text": "reference model + operation grammar (proptest strategies) + history interpreter with oracles"},
             {"name": "E3", "path": "shim/io_shim.c + harness/src/{crash,worker}.rs", "serves_properties": ["C02","C11","C13"], "kind_free_text": "LD_PRELOAD I/O shim (write log, fault injection, gates), crash-image enumerator, worker processes"},
+            {"name": "E4", "path": "harness/src/sched.rs + /repo/src/verif_hooks.rs", "serves_properties": ["C04","C09"], "kind_free_text": "cooperative schedule controller over real threads (bounded-preemption DFS by re-execution, random, PCT), driven by cfg-guarded yield points in jammdb"},
             {"name": "E2", "path": "harness/src/fsck.rs", "serves_properties": ["C01","C02","C05","C06","C10","C11","C12","C15","C16"], "kind_free_text": "independent file parser / page accountant written from the pinned layout"},
         ],
         "checks": checks,
